@@ -331,14 +331,18 @@ def Codec (D : Nat → Prop) (enc : Nat → Bytes) (dec : Dec) : Prop :=
 
 theorem decodeLoop_encodeEntries {DK DV : Nat → Prop} {encK encV : Nat → Bytes} {decK decV : Dec}
     (hK : Codec DK encK decK) (hV : Codec DV encV decV) (l : List (Nat × Nat)) (hl : ∀ p ∈ l, DK p.1 ∧ DV p.2)
-    (m0 : AMap) (used : Nat) (rest : Bytes) :
-    decodeLoop decK decV l.length (encodeEntries encK encV l ++ rest) m0 used
+    (m0 : AMap) (used : Nat) (seen : List Nat) (hn : (AMap.keys l).Nodup) (hs : ∀ p ∈ l, p.1 ∉ seen) (rest : Bytes) :
+    decodeLoop decK decV l.length (encodeEntries encK encV l ++ rest) m0 used seen
       = (l.foldl (fun c p => (AMap.set c p.1 p.2).1) m0, some (used + (encodeEntries encK encV l).length)) := by
-  induction l generalizing m0 used with
+  induction l generalizing m0 used seen with
   | nil => simp [decodeLoop, encodeEntries]
   | cons p r ih =>
     obtain ⟨k, v⟩ := p
     have hkv := hl (k, v) (by simp)
+    have hks : seen.contains k = false := by
+      have := hs (k, v) (by simp)
+      simpa using this
+    simp only [AMap.keys, List.map_cons, List.nodup_cons] at hn
     have h1 : decK (encodeEntries encK encV ((k, v) :: r) ++ rest)
         = some (k, (encK k).length) := by
       simp only [encodeEntries, List.append_assoc]; exact hK k hkv.1 _
@@ -349,8 +353,13 @@ theorem decodeLoop_encodeEntries {DK DV : Nat → Prop} {encK encV : Nat → Byt
         = encodeEntries encK encV r ++ rest := by
       simp only [encodeEntries, List.append_assoc]
       rw [← List.drop_drop]; simp
-    simp only [List.length_cons, decodeLoop, h1, h2, hV v hkv.2 _, h3,
-      ih (fun p hp => hl p (List.mem_cons_of_mem _ hp)), List.foldl_cons]
+    have hs' : ∀ p ∈ r, p.1 ∉ k :: seen := by
+      intro p hp hmem
+      rcases List.mem_cons.1 hmem with e | e
+      · exact hn.1 (List.mem_map.2 ⟨p, hp, e⟩)
+      · exact hs p (List.mem_cons_of_mem _ hp) e
+    simp only [List.length_cons, decodeLoop, h1, hks, Bool.false_eq_true, if_false, h2, hV v hkv.2 _, h3,
+      ih (fun p hp => hl p (List.mem_cons_of_mem _ hp)) _ _ _ hn.2 hs', List.foldl_cons]
     simp only [encodeEntries, List.length_append]
     congr 2; omega
 
